@@ -7,6 +7,14 @@ ROOT = os.path.dirname(os.path.dirname(os.path.abspath(__file__)))
 
 # id -> (technique, level text, level note, design ref)
 CHECKS = {
+    "C06": ("Lean 4 simulation proofs (both directions) over a hand model of the RunStep machine + exhaustive and random correspondence with clvm::run and clvmr",
+            "Kernel-checked, for every operator table agreeing with clvmr on i/c/f/r, both integer modes, any prim map: on every run that takes no flagged branch (executable predicate flagsOf = []) the stepping evaluator returns v iff consensus returns v, and fails iff consensus fails (soundness, completeness, both failure directions, fuel monotonicity). Each flagged class (((X)...) heads, operator by name, integer-is-name incl. opcodes 61/62, non-minimal operator atom, sign-padded path, zero path, legacy zero) is shown by a decide witness to break the unconditioned statement; each is an open finding. Model tied to clvm::run by all trees <= 7 nodes over the core alphabet x 3 environments, random typed programs over all modelled operators in every atom spelling, compiled programs, and deliberately flagged variants, including error classes and result spellings; the stepper-vs-clvmr oracle runs on the implementation alone.",
+            "Operators are a parameter (clvmr's on both sides); cost / step limits and softfork are outside; BLS/secp/keccak/modpow/% cases are oracle-only; the nested run of ((X)...) is a parameter.",
+            "DESIGN.md §4 C06"),
+    "C12": ("Lean 4 invariants over a hand model of CldbRun::step on the C06 machine + row-text correspondence + clvmr re-evaluation oracle",
+            "Kernel-checked for all inputs: rows are numbered by position and never Throw; the end row is exactly the step machine's result; every row of an operator other than a/i records one machine application of that operator to those arguments (in fixed mode, clvmr's apply_op on the converted operands). Partial: final = consensus and hex = source inherit C06's no-flag hypothesis; i/a rows can be false (decide witness, open finding cldb:i-row). Model tied to CldbRun by exact row texts on compiled, generated and exhaustive small programs, source- and hex-supplied; the oracle re-evaluates every operator row with clvmr and checks numbering, end row, and hex-vs-source.",
+            "Locations, Function, Env* keys, Argument-Refs and the hierarchical -t view are not modelled; the printer lives in the driver.",
+            "DESIGN.md §4 C12"),
     "C17": ("non-interference oracle on compiled programs for every parameter the real check reports unused; Lean theorem that a path reads only its own binding",
             "Programs with 1..8 lower-case parameters (flat, nested, dotted; each used directly, through helpers/inlines/lets/lambdas, under a condition, only in a failing branch, or not at all; plus explicit-path programs) are given to the real check_unused; for every reported parameter, pairs of argument trees differing only in it are run through the compiled program with clvmr and must behave identically (same value or both fail). Kernel-checked part: for all patterns and values, what a program reads through one parameter's path depends only on that parameter's binding (coincidence lemma from the C01 path theorem). The evaluator (mash_conditions / shrink_bodyform) is not modelled; three genuine defect classes are listed in known_findings.json.",
             "Differential and generator-bounded; the evaluator itself is not modelled.",
